@@ -293,32 +293,6 @@ class Canon(ast.NodeTransformer):
             return ast.copy_location(lit, node)
         return node
 
-    def visit_Subscript(self, node):
-        # indexing an unfiltered element-wise map is mapping the indexed source:
-        #   tuple(f(x) for x in XS)[k] is f(XS[k]);   tuple(f(x) for x in XS)[a:b] is tuple(f(x) for x in XS[a:b])
-        self.generic_visit(node)
-        if not isinstance(node.ctx, ast.Load):
-            return node
-        v = node.value
-        wrap = None
-        if isinstance(v, ast.Call) and isinstance(v.func, ast.Name) and v.func.id in ("tuple", "list") and len(v.args) == 1 and not v.keywords:
-            wrap, v = v, v.args[0]
-        if isinstance(v, (ast.ListComp, ast.GeneratorExp)) and (wrap is not None or isinstance(v, ast.ListComp)) and len(v.generators) == 1:
-            g = v.generators[0]
-            if not g.ifs and not g.is_async and isinstance(g.target, ast.Name) and isinstance(g.iter, (ast.Name, ast.Attribute, ast.Subscript)):
-                import copy
-                if isinstance(node.slice, ast.Constant) and isinstance(node.slice.value, int):
-                    src = ast.copy_location(ast.Subscript(value=copy.deepcopy(g.iter), slice=node.slice, ctx=ast.Load()), node)
-
-                    class _S(ast.NodeTransformer):
-                        def visit_Name(self_, n):
-                            return copy.deepcopy(src) if n.id == g.target.id and isinstance(n.ctx, ast.Load) else n
-                    return ast.copy_location(_S().visit(copy.deepcopy(v.elt)), node)
-                if isinstance(node.slice, ast.Slice):
-                    g.iter = ast.copy_location(ast.Subscript(value=g.iter, slice=node.slice, ctx=ast.Load()), node)
-                    return wrap if wrap is not None else v
-        return node
-
     def visit_ListComp(self, node):
         # [x for _ in range(n)] with x a name / constant not depending on the loop is [x] * n
         self.generic_visit(node)
@@ -399,5 +373,37 @@ class Canon(ast.NodeTransformer):
                 pos = {ast.NotEq: ast.Eq, ast.NotIn: ast.In, ast.IsNot: ast.Is}[op]
                 node.test = ast.copy_location(ast.Compare(left=c.left, ops=[pos()], comparators=c.comparators), c)
                 node.body, node.orelse = node.orelse, node.body
+        return node
+
+
+
+class IndexThroughMap(ast.NodeTransformer):
+    """tuple(f(x) for x in XS)[k] -> f(XS[k]);  tuple(f(x) for x in XS)[a:b] -> tuple(f(x) for x in XS[a:b]).
+    NOT part of the canonical form: the rewrite is only right when XS is a sequence (for a set, the k-th element in
+    iteration order is a hash-dependent pick that must stay visible).  A rule that has established that XS is ordered
+    applies it to the expressions it compares."""
+
+    def visit_Subscript(self, node):
+        self.generic_visit(node)
+        if not isinstance(node.ctx, ast.Load):
+            return node
+        v = node.value
+        wrap = None
+        if isinstance(v, ast.Call) and isinstance(v.func, ast.Name) and v.func.id in ("tuple", "list") and len(v.args) == 1 and not v.keywords:
+            wrap, v = v, v.args[0]
+        if isinstance(v, (ast.ListComp, ast.GeneratorExp)) and (wrap is not None or isinstance(v, ast.ListComp)) and len(v.generators) == 1:
+            g = v.generators[0]
+            if not g.ifs and not g.is_async and isinstance(g.target, ast.Name) and isinstance(g.iter, (ast.Name, ast.Attribute, ast.Subscript)):
+                import copy
+                if isinstance(node.slice, ast.Constant) and isinstance(node.slice.value, int):
+                    src = ast.copy_location(ast.Subscript(value=copy.deepcopy(g.iter), slice=node.slice, ctx=ast.Load()), node)
+
+                    class _S(ast.NodeTransformer):
+                        def visit_Name(self_, n):
+                            return copy.deepcopy(src) if n.id == g.target.id and isinstance(n.ctx, ast.Load) else n
+                    return ast.copy_location(_S().visit(copy.deepcopy(v.elt)), node)
+                if isinstance(node.slice, ast.Slice):
+                    g.iter = ast.copy_location(ast.Subscript(value=g.iter, slice=node.slice, ctx=ast.Load()), node)
+                    return wrap if wrap is not None else v
         return node
 
